@@ -49,6 +49,8 @@ def main():
         text = text.replace('os.path.normpath(os.path.join(HERE, "..", "..", "wt"))', repr(wt))
         open(f"/tmp/eval-{name}.{demo}", "w").write(text)
         rc0, out0 = sh(f"{runner} /tmp/eval-{name}.{demo}", cwd=wt, env=env, timeout=300)
+        if rc0 != 0:  # load-induced timeouts in demos that spawn shells: once more
+            rc0, out0 = sh(f"{runner} /tmp/eval-{name}.{demo}", cwd=wt, env=env, timeout=600)
         meta["demo_clean_rc"] = rc0
         rc, out = sh(f"git -C {wt} apply {os.path.join(src, 'patch.diff')}")
         meta["patch_applies"] = rc == 0
@@ -58,7 +60,13 @@ def main():
         meta["demo_patched_rc"] = rc1
         meta["demo_patched_tail"] = out1[-600:]
         notes = open(os.path.join(src, "notes.md")).read() if os.path.exists(os.path.join(src, "notes.md")) else ""
-        tests = sorted(set(re.findall(r"tests/[\w/]+\.py", notes)))
+        found = re.findall(r"tests/[\w/.]+", notes)
+        if not found:  # "same files as change 1"
+            sib = os.path.join(os.path.dirname(src.rstrip("/")), "1", "notes.md")
+            if os.path.exists(sib):
+                found = re.findall(r"tests/[\w/.]+", open(sib).read())
+        tests = sorted({t.rstrip("/.") for t in found})
+        tests = [t for t in tests if not any(t != u and t.startswith(u + "/") for u in tests)]
         tests = [t for t in tests if os.path.exists(os.path.join(wt, t))]
         meta["test_files"] = tests
         if tests:
